@@ -14,6 +14,7 @@ import time
 import lib
 
 PRESETS = ["mainnet", "minimal", "tiny_a", "tiny_b"]
+TLC_SLOTS = 6  # TLC processes this check runs at once (shared machine etiquette, CONVENTIONS.md)
 FAMILY_FINDINGS = os.path.join(lib.VERIF, "known_findings.d", "ssz.json")
 
 # the three malformed-input classes C04 names; everything the specification's decoder refuses for another reason
@@ -174,7 +175,7 @@ def run_pipeline(pid, tier, seed, presets, per, budget, malmax, over, rounds=1, 
     stats = {
         "states": exp_res.distinct, "transitions": exp_res.generated, "cases": 0, "checks": 0,
         "per_type": {}, "per_preset": {}, "mal": {}, "overlimit_cases": 0, "skipped_too_big": {},
-        "distinct": set(), "nontrivial": 0, "notes": {}, "samples": [], "plan_hashes": 0, "tlc_runs": 1,
+        "distinct": set(), "distinct_nonzero": set(), "nontrivial": 0, "mal_total": 0, "notes": {}, "samples": [], "plan_hashes": 0, "tlc_runs": 1,
         "binding_gaps": set(), "rounds": 0, "views_checked": 0,
     }
     devs = []
@@ -189,12 +190,12 @@ def run_pipeline(pid, tier, seed, presets, per, budget, malmax, over, rounds=1, 
             info = gen_cases(binary, os.path.join(schemas_dir, "schemas_%s.json" % preset), cpath, rseed, per, budget,
                              malmax, over, types=types)
             stats["skipped_too_big"][preset] = info.get("skipped_too_big") or []
-            # about two shards per worker: better balance, and every TLC run stays short
-            share = max(2, (2 * (lib.NCPU - 2)) // max(1, len(presets)))
+            # a few shards per TLC slot: better balance, and every TLC run stays short
+            share = max(2, (3 * TLC_SLOTS) // max(1, len(presets)))
             for k, sh in enumerate(shard_cases(cpath, share)):
                 jobs.append((preset, schemas_dir, sh, binary, k, shard_timeout))
             os.unlink(cpath)
-        outs = lib.parallel_map(eval_shard, jobs, workers=max(2, lib.NCPU - 2))
+        outs = lib.parallel_map(eval_shard, jobs, workers=TLC_SLOTS)
         for o in outs:
             stats["tlc_runs"] += 1
             stats["states"] += o["tlc"].distinct
@@ -221,10 +222,12 @@ def run_pipeline(pid, tier, seed, presets, per, budget, malmax, over, rounds=1, 
                     if r["nonzero"]:
                         pt["nonzero"] += 1
                         stats["nontrivial"] += 1
+                        stats["distinct_nonzero"].add(r["hash"])
                     if r.get("has_view"):
                         pt["view"] = True
                         stats["views_checked"] += 1
                 pt["mal"] += r.get("mal_tried", 0)
+                stats["mal_total"] += r.get("mal_tried", 0)
                 for k, v in (r.get("mal_by_kind") or {}).items():
                     stats["mal"][k] = stats["mal"].get(k, 0) + v
                 stats["plan_hashes"] += r.get("plan_hashes", 0)
@@ -295,9 +298,13 @@ def evidence_coverage(stats, extra=None):
     cov = {
         "states": stats["states"], "transitions": stats["transitions"],
         "traces_validated_against_impl": stats["cases"],
-        "evaluations": stats["checks"],
-        "distinct_nontrivial": {"distinct": len(stats["distinct"]), "nontrivial": stats["nontrivial"],
-                                "rule": "distinct = hash(type, canonical encoding); non-trivial = encoding has a non-zero byte"},
+        "evaluations": stats["cases"] + stats["mal_total"],
+        "distinct_nontrivial": len(stats["distinct_nonzero"]),
+        "rule": "a case is one (type, preset, value) generated from the schema table (default, all-ones, full lists, "
+                "boundary-biased random, over-limit) plus the malformed encodings derived from it; evaluations counts "
+                "values + malformed encodings; distinct = hash(type, canonical encoding); non-trivial = the encoding "
+                "has a non-zero byte",
+        "distinct_cases": len(stats["distinct"]), "method_checks_on_real_code": stats["checks"],
         "types_bound": len(stats["per_type"]), "tlc_runs": stats["tlc_runs"], "rounds": stats["rounds"],
         "per_preset": stats["per_preset"], "malformed_tried": stats["mal"], "overlimit_cases": stats["overlimit_cases"],
         "sha256_hashes_evaluated_from_plans": stats["plan_hashes"], "views_checked": stats["views_checked"],
